@@ -98,6 +98,66 @@ def s_never_in_neither(root, obs):
     return errs
 
 
+def s_nested_groups(ctx, vh, rng):
+    """grouped values nested two levels deep (a gadget inside a header map, a gadget inside a gadget): outside the Coq model, decided on the real outputs --
+    a constant leaf must be in the .ui, a dynamic leaf must be in the header or an error must lie inside the text of its binding or of an enclosing group"""
+    import itertools
+    import re as _re
+    docs, metas = [], []
+    hosts = [("QTableView", "horizontalHeader"), ("QTableView", "verticalHeader"), ("QTreeView", "header")]
+    vals = {"const": {"bool": "true", "int": "3"}, "dyn": {"bool": "srcB.checked", "int": "srcI.value"}}
+    for (cls, hdr), k1, k2, k3, style in itertools.product(hosts, ("const", "dyn", None), ("const", "dyn"), ("const", "dyn", None), ("block", "dotted")):
+        leaves = []
+        if k1:
+            leaves.append(("%s.stretchLastSection" % hdr, vals[k1]["bool"], k1))
+        leaves.append(("%s.font.bold" % hdr, vals[k2]["bool"], k2))
+        if k3:
+            leaves.append(("%s.font.pointSize" % hdr, vals[k3]["int"], k3))
+        if style == "dotted":
+            body = "\n".join("        %s: %s" % (n, v) for n, v, _ in leaves)
+        else:
+            inner = "\n".join("                %s: %s" % (n.split(".")[-1], v) for n, v, _ in leaves if ".font." in n)
+            outer = "\n".join("            %s: %s" % (n.split(".")[-1], v) for n, v, _ in leaves if ".font." not in n)
+            body = "        %s {\n%s\n            font {\n%s\n            }\n        }" % (hdr, outer, inner)
+        doc = "import qmluic.QtWidgets\nQWidget {\n    QCheckBox { id: srcB }\n    QSpinBox { id: srcI }\n    %s {\n        id: view\n%s\n    }\n}\n" % (cls, body)
+        docs.append(doc)
+        metas.append((hdr, leaves, style))
+    # a gadget inside a gadget on an ordinary widget: palette-free variant through sizePolicy is not nestable; use font inside header only
+    out = qml.run_docs(vh, docs, mode="generate")
+    for doc, (hdr, leaves, style), res in zip(docs, metas, out):
+        ctx.count(doc, True)
+        ctx.dist("nested-group")
+        if not isinstance(res, dict) or "diags" not in res:
+            ctx.violation("no result for a nested group document: %s" % str(res)[:200], {"qml": doc, "impl_output": str(res)[:500]})
+            continue
+        errs = [d for d in res["diags"] if d["kind"] == "error"]
+        ui = res.get("ui") or ""
+        header = res.get("header") or ""
+        for name, src, kind in leaves:
+            leafname = name.split(".")[-1]
+            # the text of this leaf's binding (dotted: the whole line; block: the member line) and of its enclosing groups
+            pos = doc.find("%s: %s" % (name if style == "dotted" else leafname, src))
+            spans = [(pos, pos + len("%s: %s" % (name if style == "dotted" else leafname, src)))]
+            if style == "block":
+                g = doc.find(hdr + " {")
+                spans.append((g, doc.find("\n        }", g) + 10))
+            else:
+                # the same grouped value written in dotted form is spread over several lines: its text is all of them
+                for m in _re.finditer(r"^\s*%s\.[^\n]*$" % hdr, doc, _re.M):
+                    spans.append((m.start(), m.end()))
+            diagnosed = any(any(a <= d["start"] and d["end"] <= b for a, b in spans) for d in errs)
+            attr = hdr + U.cap(name.split(".")[1]) if ".font." not in name else hdr + "Font"
+            in_form = bool(_re.search(r'<attribute name="%s"' % attr, ui)) and (".font." not in name or ("<%s>" % leafname.lower()) in ui)
+            in_header = bool(_re.search(r"\beval\w*%s\w*\(" % U.cap(leafname), header))
+            if not (in_form or in_header or diagnosed):
+                ctx.violation("nested binding %s (%s) is neither in the .ui nor in the header, and no error lies inside its text" % (name, kind),
+                              {"qml": doc, "impl_output": {"ui": res.get("ui"), "header": res.get("header"), "diags": res["diags"]}, "theorem_or_correspondence": "never in neither (nested groups) / S"})
+                break
+            if not errs and kind == "const" and not in_form:
+                ctx.violation("accepted document: constant nested binding %s is not in the .ui" % name, {"qml": doc, "impl_output": res.get("ui")})
+                break
+
+
 def run(ctx):
     ctx.proof_leg(TARGETS, PINS, k_targets=U.K_TARGETS)
     vh = ctx.need_harness()
@@ -144,6 +204,7 @@ def run(ctx):
         terms.append((U.coq_case("generate", r), U.coq_expected(obs)))
         idx.append(i)
     ctx.coverage["accepted_documents"] = accepted
+    s_nested_groups(ctx, vh, rng)
     # ---- planted faults: diagnosed inside the planted text
     nf = 600 if ctx.tier == "thorough" else 150
     froots, fdocs, fkinds = [], [], []
